@@ -39,21 +39,21 @@ inductive Expr where
   | or (a b : Expr)
   /-- lookup in generated table `t` (binding powers), default 0 -/
   | tbl (t : Nat) (e : Expr)
-deriving Repr, Inhabited
+deriving Repr, Inhabited, DecidableEq
 
 inductive Ret where
   | unit
   | nat (e : Expr)
   | mark (m : Nat)
   | noMark
-deriving Repr, Inhabited
+deriving Repr, Inhabited, DecidableEq
 
 inductive Dst where
   | none
   | nat (x : Nat)
   | mark (m : Nat)
   | optMark (m : Nat) (flag : Nat)
-deriving Repr, Inhabited
+deriving Repr, Inhabited, DecidableEq
 
 inductive Stmt where
   | skip
@@ -70,7 +70,7 @@ inductive Stmt where
   | brk
   | ret (r : Ret)
   | call (f : Nat) (args : List Expr) (margs : List Nat) (dst : Dst)
-deriving Repr, Inhabited
+deriving Repr, Inhabited, DecidableEq
 
 structure Proc where
   name : String
